@@ -8,7 +8,7 @@ use ark_ff::fields::{Field, Fp3};
 use ark_serialize::{CanonicalDeserialize, CanonicalSerialize};
 use ark_std::vec::*;
 use educe::Educe;
-use num_traits::One;
+use num_traits::{One, Zero};
 
 pub type G2Affine<P> = Affine<<P as MNT6Config>::G2Config>;
 pub type G2Projective<P> = Projective<<P as MNT6Config>::G2Config>;
@@ -30,8 +30,26 @@ impl<P: MNT6Config> Default for G2Prepared<P> {
     }
 }
 
+impl<P: MNT6Config> G2Prepared<P> {
+    /// The identity is prepared as `(0, 0)` (not a point of the curve) without coefficients.
+    pub fn is_zero(&self) -> bool {
+        self.x.is_zero() && self.y.is_zero()
+    }
+}
+
 impl<P: MNT6Config> From<G2Affine<P>> for G2Prepared<P> {
     fn from(g: G2Affine<P>) -> Self {
+        if g.infinity {
+            let zero = <Fp3<P::Fp3Config>>::zero();
+            return Self {
+                x: zero,
+                y: zero,
+                x_over_twist: zero,
+                y_over_twist: zero,
+                double_coefficients: Vec::new(),
+                addition_coefficients: Vec::new(),
+            };
+        }
         let twist_inv = P::TWIST.inverse().unwrap();
 
         let mut g_prep = Self {
